@@ -126,8 +126,8 @@ def build(x):
             rv(arr@, high as int) >= f64_real(target),
         decreases high - low,""")
     f.loop_body_start(1, "        broadcast use areal, lits; proof { areal_obeys(); }")
-    f.insert_before(r"high = mid;", "            proof { assert(rv(arr@, mid as int) >= f64_real(target)); }")
-    f.insert_before(r"low = mid \+ 1;", """            proof { assert(rv(arr@, mid as int) < f64_real(target));
+    f.insert_before(r"high = mid[^;]*;", "            proof { assert(rv(arr@, mid as int) >= f64_real(target)); }")
+    f.insert_before(r"low = mid[^;]*;", """            proof { assert(rv(arr@, mid as int) < f64_real(target));
                 assert forall|i: int| 0 <= i < mid + 1 implies #[trigger] rv(arr@, i) < f64_real(target) by { if i < mid { assert(rv(arr@, i) < rv(arr@, mid as int)); } } }""")
     texts.append(f.text)
     parts.append(f.text + "\n")
